@@ -39,6 +39,7 @@ vars == <<us, gex, gst, gnj, canc, bst, bnj, bdel, js, jc, npp, jatt, tally, stg
 
 NULL  == "NULL"
 NULLT == -1
+MaxGroupDepth == 2            \* hailtop.batch_client.globals.MAX_JOB_GROUPS_DEPTH
 Terminal == {"Success", "Failed", "Error", "Cancelled"}
 Live     == {"Ready", "Creating", "Running"}
 B(x) == IF x THEN 1 ELSE 0
@@ -158,6 +159,7 @@ InsertGroup(g) ==             \* _create_job_groups, one group per bunch
   /\ g # 0 /\ ~gex[g] /\ us[GUpd[g]] = "open" /\ ~bdel
   /\ \A h \in Groups : h < g => gex[h]            \* "job group specs were not submitted in order" otherwise
   /\ ~GrpCanc(GParent[g])                         \* "job group parent has already been cancelled" otherwise
+  /\ Cardinality(Anc(GParent[g])) <= MaxGroupDepth \* "job group exceeded the maximum level of nesting" otherwise
   /\ gex' = [gex EXCEPT ![g] = TRUE]
   /\ UNCHANGED <<us, gst, gnj, canc, bst, bnj, bdel, js, jc, npp, jatt, tally, stg, cr, ur, att, ares, inst, disp, jdisp,
                  ujob, ugrp, ubp, udate, today>>
